@@ -1,4 +1,5 @@
 //! Harness binary for the types cluster (C16, C17, C18, C12).
+mod c12;
 mod c16;
 mod c17;
 mod c18;
@@ -13,6 +14,11 @@ fn main() {
     vh_common::silence_panics();
     let mut report = Report::default();
     match args.prop.as_str() {
+        "C12" => c12::run(&args, &mut report),
+        "C12-child" => {
+            c12::child(&args);
+            return;
+        }
         "C16" => c16::run(&args, &mut report),
         "C17" => c17::run(&args, &mut report),
         "C18" => c18::run(&args, &mut report),
